@@ -891,6 +891,10 @@ class _ExecutorManagerThread(threading.Thread):
         while (
             n_sentinels_sent < n_children_to_stop
             and self.get_n_children_alive() > 0
+            # The workers of a broken executor are terminated, not asked to
+            # exit: the call queue may be full, or its read lock held for
+            # ever by a worker that was killed.
+            and self.executor_flags.broken is None
         ):
             for _ in range(n_children_to_stop - n_sentinels_sent):
                 try:
